@@ -9,6 +9,14 @@
 #include <vector>
 #include <string>
 
+// Argon2 internals (non-static symbols of the library): used to run exactly the data-independent first half of Argon2id.
+// Only in the valgrind harness (gcc, native variant: every block-fill backend is compiled in).
+#ifdef CT_VALGRIND_OPS
+extern "C" {
+#include "../../crypto_pwhash/argon2/argon2-core.h"
+}
+#endif
+
 namespace ct {
 
 enum { MAXLEN = 2048 };
@@ -33,7 +41,33 @@ struct Op {
     bool needs_aesni;      // only meaningful on the AES-NI backend
     const char *secret_kind;   // "bytes" | "scalar" | "pair" | "padpos" | "seed"
     size_t max_publen;
+    bool vg_only = false;      // allocates memory internally (addresses differ between two executions): only for the definedness monitor
 };
+
+#ifdef CT_VALGRIND_OPS
+// Argon2id, pass 0, slices 0 and 1 (the part the specification makes data-independent), with one explicitly chosen block-fill backend.
+// The password is the secret; everything after slice 1 legitimately uses password-derived addresses and is not run.
+inline void argon2id_first_half(size_t pwlen, int backend) {
+    argon2_context ctx; memset(&ctx, 0, sizeof ctx);
+    ctx.out = B().out; ctx.outlen = 32; ctx.pwd = B().secret; ctx.pwdlen = (uint32_t) pwlen; ctx.salt = B().pub; ctx.saltlen = 16;
+    ctx.t_cost = 1; ctx.m_cost = 1040; ctx.lanes = 1; ctx.threads = 1; ctx.flags = ARGON2_DEFAULT_FLAGS;     // segment length 260 > 128: several address blocks per segment
+    argon2_instance_t inst; memset(&inst, 0, sizeof inst);
+    uint32_t seg = ctx.m_cost / (ctx.lanes * ARGON2_SYNC_POINTS);
+    inst.region = NULL; inst.passes = 1; inst.current_pass = ~0U; inst.memory_blocks = seg * ctx.lanes * ARGON2_SYNC_POINTS; inst.segment_length = seg;
+    inst.lane_length = seg * ARGON2_SYNC_POINTS; inst.lanes = 1; inst.threads = 1; inst.type = Argon2_id;
+    if (argon2_initialize(&inst, &ctx) != ARGON2_OK) { B().sink = -1; return; }
+    for (uint8_t slice = 0; slice < ARGON2_SYNC_POINTS / 2; slice++) {
+        argon2_position_t pos; pos.pass = 0; pos.lane = 0; pos.slice = slice; pos.index = 0;
+        switch (backend) {
+        case 1: argon2_fill_segment_ssse3(&inst, pos); break;
+        case 2: argon2_fill_segment_avx2(&inst, pos); break;
+        default: argon2_fill_segment_ref(&inst, pos); break;
+        }
+    }
+    argon2_finalize(&ctx, &inst);
+    B().sink = 0;
+}
+#endif
 
 #define SL(N) [](size_t) -> size_t { return N; }
 #define SLP(EXPR) [](size_t n) -> size_t { return EXPR; }
@@ -103,6 +137,14 @@ inline const std::vector<Op> &ops() {
         { "crypto_aead_aes256gcm_encrypt", SLP(32 + n), [](size_t n) { B().sink = crypto_aead_aes256gcm_encrypt(B().out, nullptr, B().secret + 32, n, B().pub + 32, 13, nullptr, B().pub, B().secret); }, true, "bytes", 600 },
         { "crypto_aead_aegis128l_encrypt", SLP(16 + n), [](size_t n) { B().sink = crypto_aead_aegis128l_encrypt(B().out, nullptr, B().secret + 16, n, B().pub + 32, 13, nullptr, B().pub, B().secret); }, true, "bytes", 600 },
         { "crypto_aead_aegis256_encrypt", SLP(32 + n), [](size_t n) { B().sink = crypto_aead_aegis256_encrypt(B().out, nullptr, B().secret + 32, n, B().pub + 32, 13, nullptr, B().pub, B().secret); }, true, "bytes", 600 },
+#ifdef CT_VALGRIND_OPS
+        // ---- password hashing (definedness monitor only): Argon2i is data-independent throughout, Argon2id in pass 0 slices 0-1
+        { "crypto_pwhash(argon2i, 8 KiB)", SLP(n), [](size_t n) { B().sink = crypto_pwhash(B().out, 32, (const char *) B().secret, n, B().pub, 3, 8192, crypto_pwhash_ALG_ARGON2I13); }, false, "bytes", 64, true },
+        { "crypto_pwhash(argon2i, 1040 KiB)", SLP(n), [](size_t n) { B().sink = crypto_pwhash(B().out, 32, (const char *) B().secret, n, B().pub, 3, 1040 * 1024, crypto_pwhash_ALG_ARGON2I13); }, false, "bytes", 16, true },
+        { "argon2id first half (ref)", SLP(n), [](size_t n) { argon2id_first_half(n, 0); }, false, "bytes", 16, true },
+        { "argon2id first half (ssse3)", SLP(n), [](size_t n) { if (sodium_runtime_has_ssse3()) argon2id_first_half(n, 1); }, false, "bytes", 16, true },
+        { "argon2id first half (avx2)", SLP(n), [](size_t n) { if (sodium_runtime_has_avx2()) argon2id_first_half(n, 2); }, false, "bytes", 16, true },
+#endif
         // ---- encoders of secret data
         { "sodium_bin2hex", SLP(n), [](size_t n) { sodium_bin2hex((char *) B().out, 2 * n + 1, B().secret, n); }, false, "bytes", 300 },
         { "sodium_bin2base64(original)", SLP(n), [](size_t n) { sodium_bin2base64((char *) B().out, sodium_base64_ENCODED_LEN(n, 1), B().secret, n, 1); }, false, "bytes", 300 },
